@@ -8,15 +8,26 @@
     the leaf's LATEST value, Send).  [reachable h nw subs st]: [st] is reached
     from the initial state (nw writers, the subscriptions [subs], each started
     at an arbitrary moment) by SOME schedule -- "for all interleavings" is the
-    universal quantification over [st].  [strict h] switches on the two
-    hypotheses: at most one write in flight per target (one writer goroutine
-    per target implies it) and no subscription path longer than a leaf it is
-    compatible with.  [full_stream st sb] = responses sent ++ the response
+    universal quantification over [st].  Writers take the target's write
+    mutex (Target.wmu, commit b865e5c) with their tree write and release it
+    when the operation returns ([LUnlock]), so any number of writer goroutines
+    may write one target.  [strict h] is the one hypothesis left: no
+    subscription path longer than a leaf it is compatible with.  [full_stream st sb] = responses sent ++ the response
     inside Send ++ what the item in the sender's hand, the queue and the
     pending feed callbacks addressed to [sb] would be sent as NOW.  Only
     statements here, each closed by [exact] of a lemma of StreamProofs.v. *)
 From Gnmi Require Import Base.Prelude Stream.StreamLts Stream.StreamProofs Stream.C04Check Stream.C04CheckProofs.
 Open Scope Z_scope.
+
+(** Two writers of one target exclude each other from the tree write to the
+    end of the feed callbacks: whoever has announcements pending holds the
+    target's mutex, and no two writers hold the same one. *)
+Theorem C04_writers_exclusive :
+  forall h nw subs st, strict h -> reachable h nw subs st ->
+  (forall w it, In it (feed_of st w) -> exists t, lock_of st w = Some t /\ item_target st it = Some t) /\
+  (forall w w' t, w <> w' -> lock_of st w = Some t -> lock_of st w' = Some t -> False).
+Proof. exact writers_exclusive. Qed.
+Print Assumptions C04_writers_exclusive.
 
 (** The invariant: in EVERY reachable state, for every live subscriber whose
     initial walk is done, replaying (sent ++ in Send ++ in hand ++ queue ++
@@ -103,7 +114,7 @@ Theorem C04_no_lost_update :
 Proof. exact no_lost_update. Qed.
 Print Assumptions C04_no_lost_update.
 
-(** The hypotheses are satisfiable and the conclusion is not vacuous: an
+(** The hypothesis is satisfiable and the conclusion is not vacuous: an
     update landing between registration and walk is delivered coalesced. *)
 Theorem C04_stream_converges_example :
   strict ex_hyps /\ reachable ex_hyps 1 kf_subs ex_state /\ quiescent ex_state /\
@@ -113,13 +124,14 @@ Theorem C04_stream_converges_example :
 Proof. exact stream_converges_example. Qed.
 Print Assumptions C04_stream_converges_example.
 
-(** Without "one write in flight per target" the statement is FALSE (known
-    finding KF-C04-1, DESIGN 7.16): two writers of one target, update || delete
-    of one leaf; the update's announcement overtakes the delete's. *)
+(** Regression witness: WITHOUT the write mutex (the transition system of the
+    code before commit b865e5c, [step_gen false]) the statement is FALSE
+    (DESIGN 7.16, fixed): two writers of one target, update || delete of one
+    leaf; the update's announcement overtakes the delete's. *)
 Theorem C04_stream_converges_refuted :
   exists h nw subs st,
-    h_agree h = true /\ h_owt h = false /\
-    reachable h nw subs st /\ quiescent st /\
+    h_agree h = true /\
+    reachable_unlocked h nw subs st /\ quiescent st /\
     exists sb p, nth_error (st_subs st) 0 = Some sb /\ s_end sb = false /\ s_uo sb = false /\
       sub_matches sb p = true /\
       s_sent sb = [RUpd p 1 1 0; RSync; RDel p 10; RUpd p 5 5 0] /\
